@@ -83,6 +83,8 @@ def render(p):
         D = "lambda*Stensor4::IxI()+2*mu*Stensor4::Id()"
         if p["style"] == 0:
             L.append("@ProvidesSymmetricTangentOperator;")
+        elif p["style"] == 1:
+            L.append("@ProvidesTangentOperator;")
         L.append("@PredictionOperator{\n  static_cast<void>(smt);\n  Dt = %s;\n}" % D)
         if p["style"] == 2:
             L.append("@Integrator{\n  const auto e = eto+deto;\n  sig = lambda*trace(e)*Stensor::Id()+2*mu*e;\n}")
@@ -92,7 +94,7 @@ def render(p):
                      "  if(computeTangentOperator_){\n    Dt = %s;\n  }\n}" % D)
     else:  # aniso: generated SPD stiffness in the storage basis of the (single) hypothesis, scaled by `young`
         L.append("@MaterialProperty stress young;\n@MaterialProperty real nu;")
-        L.append("@LocalVariable Stensor4 Ca;")
+        L.append("@ProvidesSymmetricTangentOperator;\n@LocalVariable Stensor4 Ca;")
         n = len(p["C"])
         body = "".join("  Ca(%d,%d) = young*%r;\n" % (i, j, p["C"][i][j]) for i in range(n) for j in range(n))
         L.append("@InitLocalVariables{\n  static_cast<void>(nu);\n" + body + "}")
@@ -216,6 +218,9 @@ def check_case(case):
         if r != -1:
             return Result(False, "C55.invalid_code.return", "invalid K[1]/K[2] accepted (ret=%d): %s" % (r, ctx))
         return Result(True, nontrivial=True, classes=classes + ["invalid_code"])
+    if r == -1 and p["kind"] == "brick" and k0 == 3:
+        # the StandardElasticity brick provides the elastic, secant and consistent operators only
+        return Result(True, classes=classes + ["brick.tangent_operator_not_provided"])
     if r == -1:
         return Result(False, "C55.return.failure", "valid request fails: %s msg=%r" % (ctx, cl.b.message()[:200]))
     if c2 > 3:
@@ -280,7 +285,10 @@ def check_case(case):
         tscale = max(float(np.linalg.norm(D)), 1e-3 * E)
         et = float(np.linalg.norm(pred - D)) / tscale
         fname = ["dsig_dF", "dS_dEGL", "dPK1_dF", "dtau_dDF"][c2]
-        ttol = 2e-6
+        # 2e-6: truncation + round-off of the central differences (h=1e-6: h^2 + u/h ~ 1e-10) with margin.
+        # Hencky: the implementation evaluates divided differences (log a - log b)/(a - b) of the eigenvalues
+        # of C, which loses u/gap (measured 2.5e-17/gap on [1e-14,1e-8]): not judged below 20 u/gap.
+        ttol = 2e-6 + (20 * 2.2e-16 / max(gap, 1e-16) if sm == "hencky" else 0.0)
         errs["tangent.%s.%s" % (sm, fname)] = et / ttol
         if not et <= ttol:
             return Result(False, "C55.tangent.%s.%s" % (sm, fname), "relative error %.3g > %g (eigenvalue gap %.2g) between the returned operator and finite differences of the returned stress: %s F0=%r F1=%r" % (
